@@ -301,3 +301,26 @@ CHECKS["C05"] = {
         {"name": "random", "run": "^TestC05Random$", "kind": "rapid", "checks": {"quick": 40000, "thorough": 800000}, "shards": {"quick": 4, "thorough": 16}},
     ],
 }
+
+CHECKS["C15"] = {
+    "pkg": "props/c15",
+    "level": "exploration",
+    "rule": "Struct types built at run time with reflect.StructOf (1..6 exported fields; kinds bool, int/int8..64, uint/uint8..64, float32/64, string; as scalar, pointer or slice; any subset of the six source tags path/form/query/cookie/header/json with distinct key names per source, optional 'required' on one tag, optional default tag; some fields untagged), each a new type identity (cold decoder cache); "
+            "1..4 requests per type, real wire bytes parsed by hertz, carrying values under any subset of the sources (body none/urlencoded/multipart/JSON): valid text incl. min/max of the width, invalid and out-of-range text as a separate class; every (type, request) bound twice (Bind then BindAndValidate) and earlier types re-bound after later ones were introduced; concurrent unit: 4..12 types bound from 8 goroutines (thorough: under the race detector). "
+            "Non-trivial = a field with a value in >= 2 of its sources, or a required/default field with no value; distinct by FNV-64 of (field specs, request spec).",
+    "assumptions": [
+        "distinct key names per source take hertz's documented form-falls-back-to-query behaviour out of the picture",
+        "present-but-empty values for non-string kinds, file/struct/map fields and raw_body are not generated; slices only receive valid texts",
+        "a missing required value must be an error even when a default is declared",
+    ],
+    "level_text": "Random exploration against a 60-line reference binder written from the documented priority list (path, form, query, cookie, header, JSON), strconv conversions, default/required rules; results must be identical on repeated and concurrent use.",
+    "level_note": "Trusts the reference binder and reflect.StructOf type generation; sampled.",
+    "technique": "property-based testing (rapid) with run-time generated types against a reference binder; repeat/concurrency metamorphic relation",
+    "nontrivial_floor": 300,
+    "units": [
+        {"name": "regress", "run": "^TestC15Regress$", "kind": "plain"},
+        {"name": "bind", "run": "^TestC15Bind$", "kind": "rapid", "checks": {"quick": 1600, "thorough": 32000}, "shards": {"quick": 8, "thorough": 16}},
+        {"name": "concurrent", "run": "^TestC15Concurrent$", "kind": "rapid", "checks": {"quick": 160, "thorough": 1600}, "shards": {"quick": 4, "thorough": 8}},
+        {"name": "concurrent-race", "run": "^TestC15Concurrent$", "kind": "rapid", "race": True, "tiers": ["thorough"], "checks": {"thorough": 400}, "shards": {"thorough": 8}},
+    ],
+}
